@@ -134,7 +134,9 @@ func runOne(t *testing.T, scn *Scenario, tier string, seed uint64, plan *Plan, k
 			res.Steps = sim.Steps
 			res.SimNs = int64(sim.Now())
 			res.Hash = sim.TraceHash()
-			res.FP = sim.Fingerprint()
+			if res.FP == "" {
+				res.FP = sim.Fingerprint()
+			}
 			res.Sites = sim.siteHits
 			if sim.overrun {
 				res.HarnessErr = "step budget exhausted"
@@ -456,13 +458,15 @@ func TestVerifSim(t *testing.T) {
 	}
 	t0 := time.Now()
 	sampled := 0
+	minimized := 0
 	for _, seed := range seeds {
 		if wallBudget > 0 && time.Since(t0) > wallBudget {
 			break
 		}
 		emit(map[string]any{"start": seed})
 		res := runOne(t, scn, tier, seed, nil, keepTrace)
-		if !res.OK && res.HarnessErr == "" && doMin {
+		if !res.OK && res.HarnessErr == "" && doMin && minimized < 2 {
+			minimized++
 			key := violationKey(res, "")
 			mp, tries := minimize(scnName, tier, res.Plan, key, tmpDir, 150, time.Now().Add(60*time.Second))
 			if planSize(mp) < planSize(res.Plan) {
@@ -470,6 +474,9 @@ func TestVerifSim(t *testing.T) {
 				r2, _ := runPlanSubprocess(scnName, tier, mp, tmpDir, fmt.Sprintf("f%d", os.Getpid()))
 				if violationKey(r2, "") == key {
 					r2.Minimized = true
+					if r2.Stats == nil {
+						r2.Stats = map[string]int64{}
+					}
 					r2.Stats["shrink_tries"] = int64(tries)
 					r2.Stats["orig_ops"] = int64(len(res.Plan.Ops))
 					res = r2
